@@ -75,26 +75,29 @@ Print Assumptions C14_nonvacuous.
    every run by a translator (harness/srcfacts/skeleton.go) from xsync_map.go and
    xsync_mapof.go: per public method, how often a syntactic path can perform each
    kind of primitive outside a closure run by the map, and how often such a closure
-   can invoke a user function.  proofs/Skel.v ties the model programs to it in both
-   directions; a change of the call structure of a method breaks these statements. *)
-From CacheV.proofs Require SkelDefs Skel.
+   can invoke a user function.  proofs/Skel*.v tie the model programs to it in both
+   directions; a change of the call structure of a method breaks these statements.
+   Each property uses the projection of the budgets it is about (SkelDefs.relax):
+   C02 all primitives, C05 map calls and user functions, C06 callbacks, C14 clock
+   and settings. *)
+From CacheV.proofs Require SkelDefs SkelSet.
 From CacheV.gen Require SrcFacts.
 From Coq Require String.
 
-(* the settings are reached through their atomic.Value only: the translator recognises c.defaultExpiration.Load/Store
-   and c.evictedCallback.Load/Store, and the model's ReadDflt / ReadCb / WriteDflt / WriteCb match them one for one *)
-Theorem C14_settings_through_atomic_value :
-  SkelDefs.unattained SrcFacts.budgets_map (CacheV.Ops.prog_cache Z.eq_dec 0%Z) = [] /\
-  SkelDefs.unattained SrcFacts.budgets_mapof (CacheV.Ops.prog_cacheof Z.eq_dec 0%Z) = [].
-Proof. split; [exact Skel.cache_budget_attained|exact Skel.cacheof_budget_attained]. Qed.
-Print Assumptions C14_settings_through_atomic_value.
-
+(* the clock and the settings: the settings are reached through their atomic.Value only (the translator recognises
+   c.defaultExpiration.Load/Store and c.evictedCallback.Load/Store), and the model's ReadNow / ReadDflt / ReadCb /
+   WriteDflt / WriteCb match the source's accesses one for one *)
 Theorem C14_model_reads_settings_where_source_does :
   forall (K V : Type) (eqd : forall a b : K, {a = b} + {a <> b}) (zero : V) (o : CacheV.Ops.cop K V),
     SkelDefs.is_call o ->
-    SkelDefs.within SrcFacts.budgets_map (CacheV.Ops.prog_cache eqd zero) o /\
-    SkelDefs.within SrcFacts.budgets_mapof (CacheV.Ops.prog_cacheof eqd zero) o.
+    (SkelDefs.within (SkelDefs.relax SkelDefs.P_set false SrcFacts.budgets_map) (CacheV.Ops.prog_cache eqd zero) o /\
+     SkelDefs.within (SkelDefs.relax SkelDefs.P_set false SrcFacts.budgets_mapof) (CacheV.Ops.prog_cacheof eqd zero) o)%type.
 Proof.
-  intros K V eqd zero o H. split; [exact (Skel.cache_within_budget eqd zero o H)|exact (Skel.cacheof_within_budget eqd zero o H)].
+  intros K V eqd zero o H. split; [exact (SkelSet.cache_within_on eqd zero o H)|exact (SkelSet.cacheof_within_on eqd zero o H)].
 Qed.
 Print Assumptions C14_model_reads_settings_where_source_does.
+Theorem C14_settings_through_atomic_value :
+  (SkelDefs.unattained_on SkelDefs.P_set false SrcFacts.budgets_map (CacheV.Ops.prog_cache Z.eq_dec 0%Z) = [] /\
+   SkelDefs.unattained_on SkelDefs.P_set false SrcFacts.budgets_mapof (CacheV.Ops.prog_cacheof Z.eq_dec 0%Z) = [])%type.
+Proof. exact SkelSet.attained_on. Qed.
+Print Assumptions C14_settings_through_atomic_value.
